@@ -28,7 +28,7 @@ ASSUMPTIONS = [
     'years 1951..2050 only (two digit year convention)',
 ]
 PROBES = ['copy_token_error', 'copy_token_changed', 'drop_col_first', 'drop_col_middle', 'drop_col_last', 'add_col', 'letters_in_float', 'bad_utim', 'bad_date', 'bad_time', 'undeclared_header_name',
-          'delete_used_decl', 'delete_unused_decl', 'delete_header', 'repeat_header_name', 'text_file_object_fresh', 'text_file_object_read', 'text_file_object_readline', 'text_file_object_iterated', 'whitespace', 'digit_change', 'zero_rows', 'tab_declarations', 'date_style_A', 'date_style_B',
+          'text_beyond_16MiB', 'delete_used_decl', 'delete_unused_decl', 'delete_header', 'repeat_header_name', 'text_file_object_fresh', 'text_file_object_read', 'text_file_object_readline', 'text_file_object_iterated', 'whitespace', 'digit_change', 'zero_rows', 'tab_declarations', 'date_style_A', 'date_style_B',
           'healthy_can_parse']
 
 DAT = None
@@ -87,6 +87,11 @@ def generate(seed, tier):
     rng = seeds.Rng(seed)
     model = D.gen_model(rng)
     sc = {'world': 'dat', 'model': model, 'corruptions': enumerate_corruptions(model, rng)}
+    if model['rows'] and rng.chance(0.004):
+        # days of drilling: the data lines of the model repeated until the text is well beyond 16 MiB; one frame per data line
+        # still (no corruptions in this scenario: it is about size)
+        sc['huge_bytes'] = rng.pick([17_000_000, 18_500_000, 34_000_000])
+        sc['corruptions'] = []
     if rng.chance(0.3):
         sc['file_object'] = rng.pick(['fresh', 'read', 'readline', 'iterated'])
     return sc
@@ -213,6 +218,26 @@ def execute(scenario):
     res.probe('date_style_' + model['date_style'])
     distinct = set()
     sep_cls = 'tab' if '\t' in model.get('row_sep', ' ') + model.get('header_sep', ' ') else 'space'
+    if scenario.get('huge_bytes'):
+        res.probe('text_beyond_16MiB')
+        lines_ = D.lines(model)
+        head_ = [t for tag, t in lines_ if tag[0] != 'row']
+        rows_ = [t for tag, t in lines_ if tag[0] == 'row']
+        k_ = scenario['huge_bytes'] // max(1, sum(len(t) + 1 for t in rows_)) + 1
+        text_ = '\n'.join(head_ + rows_ * k_) + '\n'
+        res.op('parse_huge')
+        try:
+            fa = DAT.parse_file(text_file(text_, flavour))
+            got_ = len(fa.x_axis)
+            res.ev('huge', len(text_), got_)
+            if got_ != len(rows_) * k_:
+                res.violation('frame-count', f'a DAT text of {len(text_)} characters with {len(rows_) * k_} data lines parses to {got_} frames', huge=True, rows=min(nrows, 2))
+        except Exception as err:
+            res.violation('healthy-rejected', f'healthy DAT text of {len(text_)} characters rejected: {type(err).__name__}: {err}', exc=type(err).__name__, corruption='none', rows=min(nrows, 2), huge=True)
+        res.notes['evaluations'] = 1
+        res.notes['distinct'] = ['huge']
+        res.shape = seeds.digest(['huge', len(model['header'])])
+        return res
     # ---- fault free
     text = D.text_of(D.lines(model), model['trailing_newline'])
     res.op('parse')
